@@ -81,7 +81,7 @@ class EntryInfo:
         # splice in helpers that (transitively) write database maps other than the transparent/stamped caches: these are the
         # pieces of the entry a refactoring may have extracted; pure lookups (canonical path, line index ...) stay calls
         from .r3d import stamped_caches
-        quiet = set(stamped_caches(db)) | {"canonical_path_cache"}
+        quiet = set(stamped_caches(db)) | set(db.maps_where(lambda k, v: k == "std::path::PathBuf" and v == "std::path::PathBuf"))
 
         def writes_index(g):
             return any(mode == "X" and ident.startswith("dashmap|%s." % DB) and ident.split(".")[-1] not in quiet
